@@ -35,10 +35,14 @@ class Run:
         self.counts = collections.Counter()
         self.nontrivial = set()
         self.stats = {}
+        self.log = None            # when set: list receiving ('inst'|'viol'|'broke', kwargs) for the result cache
+        self.scope = None          # when set: only constructs located in these files are kept (rule run outside its own properties)
 
     # -- called by rules
     def inst(self, site, detail='', nontrivial=True, key=None):
         """record one evaluated obligation (rule instance)"""
+        if self.log is not None: self.log.append(('inst', dict(site=site, detail=detail, nontrivial=nontrivial, key=_jsonable(key))))
+        if self.scope is not None and _file_of(site) not in self.scope: return
         self.counts[(self.cur_rule, self.cur_cfg)] += 1
         k = (self.cur_rule, key or site)
         if nontrivial: self.nontrivial.add(k)
@@ -57,8 +61,35 @@ class Run:
         if self.cur_cfg not in v['configs']: v['configs'].append(self.cur_cfg)
 
     def broke(self, msg):
+        if self.log is not None: self.log.append(('broke', dict(msg=msg)))
+        if self.scope is not None: return          # a rule borrowed from another property never breaks this check
         m = '%s[%s]: %s' % (self.cur_rule, self.cur_cfg, msg)
         if m not in self.broken: self.broken.append(m)
+
+
+def _jsonable(k):
+    if isinstance(k, (list, tuple)): return [_jsonable(x) for x in k]
+    return k if isinstance(k, (str, int, float, bool)) or k is None else str(k)
+
+
+def _tuplify(k):
+    return tuple(_tuplify(x) for x in k) if isinstance(k, list) else k
+
+
+def _file_of(s):
+    """repo-relative file of a site / loc string ('include/unifex/x.hpp:12 ...', 'x.hpp ...')"""
+    s = (s or '').split(' ')[0]
+    s = s.rsplit(':', 1)[0] if ':' in s else s
+    i = s.find('include/unifex/')
+    if i < 0: i = s.find('source/')
+    return s[i:] if i >= 0 else s
+
+
+def replay(run, log):
+    for kind, kw in log:
+        if kind == 'inst': run.inst(kw['site'], kw['detail'], kw['nontrivial'], _tuplify(kw['key']) if kw['key'] is not None else None)
+        elif kind == 'viol': run.violation(kw['func'], kw['key'], kw['loc'], kw['msg'], kw['path'], kw['prop'])
+        elif kind == 'broke': run.broke(kw['msg'])
 
 
 def site(f, line=None):
